@@ -9,7 +9,7 @@ PROPS = {
                            "domain and the i64-nanosecond window against documented anchors; every recorded from_timestamp*/timestamp*/SystemTime call on a boundary lattice "
                            "and random counts (all four units, all nanosecond-field classes) is validated by TLC.",
                 technique="TLA+ Instant spec over BigInt: TLC design check + trace validation of recorded timestamp conversions", assumptions=_A),
-    "C03": dict(design=["Instant", "TimeOfDay"], drive="C03",
+    "C03": dict(gens=["Session_C03"], design=["Instant", "TimeOfDay"], drive="C03",
                 level_text="AddDt/SinceDt in Instant.tla define elapsed-time arithmetic exactly (BigInt nanoseconds, refusal exactly outside the range); MC_Instant checks exactness, "
                            "b + (a - b) = a, antisymmetry and whole-day truncation; recorded checked and operator forms on NaiveDateTime, NaiveDate, DateTime<FixedOffset> and the day/week "
                            "iterator episodes near both range ends are validated by TLC.",
